@@ -215,7 +215,12 @@ func (r *Report) Violate(v Violation) {
 	r.Violations = append(r.Violations, v)
 }
 
-func (r *Report) NViol() int { r.mu.Lock(); defer r.mu.Unlock(); return len(r.Violations) }
+// NViol counts every reported violation, including those dropped from the report to keep it small.
+func (r *Report) NViol() int {
+	r.mu.Lock()
+	defer r.mu.Unlock()
+	return len(r.Violations) + r.Dist["violations_dropped"]
+}
 
 func (r *Report) Write(path string) {
 	r.mu.Lock()
